@@ -289,6 +289,10 @@ run_io(void) {
 			TIMED(exp_name[f], run_export(f, g_unary[p].a));
 			TIMED(imp_name[f], run_import(f, g_unary[p].a));
 		}
+	if (VS_BB.n) for (f = 0; f < F__N; f ++) {
+		TIMED(exp_name[f], run_export(f, &VS_BB));
+		TIMED(imp_name[f], run_import(f, &VS_BB));
+	}
 	for (p = 0; p < g_nunary; p ++)
 		TIMED("naf", run_naf(g_unary[p].a));
 #if C01_SCOPE == 0
